@@ -517,6 +517,23 @@ impl MockHost {
         self.push(Event::Close { conn });
     }
 
+    /// connections accepted and not yet closed (their serving threads are still alive)
+    pub fn open_connections(&self) -> usize {
+        let ev = self.events.lock().unwrap();
+        let mut n: isize = 0;
+        for e in ev.iter() {
+            match e {
+                Event::Open { .. } => n += 1,
+                Event::Close { .. } => n -= 1,
+                _ => {}
+            }
+        }
+        n.max(0) as usize
+    }
+    /// forget the event log (keeps memory bounded in long explorations); only when no connection is open
+    pub fn truncate_log(&self) {
+        self.events.lock().unwrap().clear();
+    }
     /// position in the event log; pass to `since`
     pub fn cursor(&self) -> usize {
         self.events.lock().unwrap().len()
